@@ -199,7 +199,7 @@ Section Floats.
      (ex <> [] /\ exp_match [101; 69]%N (isd ud) false (ex ++ sfx ++ rest) = Some (ex, sfx ++ rest))).
   Proof.
     intros Hex Hso Hd. pose proof (ftail_ok_app sfx rest Hso Hd) as HT.
-    assert (Hsa : forallb alnum sfx = true) by (unfold fsfx_ok in Hso; lia).
+    assert (Hsa : forallb alnum sfx = true) by (unfold fsfx_ok in Hso; apply andb_true_iff in Hso as [Hso' _]; exact Hso').
     split; [|split; [now apply suffix_run_ok|]].
     - destruct Hex as [|e sgn ed He Hsg Hed Hne]; [now apply ftail_stops_isd|].
       cbn [app stops]. unfold isd. cbn [in_set existsb] in He. replace (e <? 128)%N with true by lia. unfold ascii_digit. lia.
@@ -235,7 +235,7 @@ Section Floats.
     lex_one_ok_u uw ud (s "CONSTANT") ((ip ++ 46%N :: fp) ++ ex ++ sfx) rest.
   Proof.
     intros ip fp ex sfx rest Hip Hfp Hne Hex Hs Hdl.
-    pose proof (fsuffix_ok sfx Hs) as Hso. assert (Hsa : forallb alnum sfx = true) by (unfold fsfx_ok in Hso; lia).
+    pose proof (fsuffix_ok sfx Hs) as Hso. assert (Hsa : forallb alnum sfx = true) by (unfold fsfx_ok in Hso; apply andb_true_iff in Hso as [Hso' _]; exact Hso').
     destruct (exp_then_tail ex sfx rest Hex Hso Hdl) as (Hst & Hsr & Hem).
     assert (Ew : ((ip ++ 46%N :: fp) ++ ex ++ sfx) ++ rest = ip ++ 46%N :: fp ++ ex ++ sfx ++ rest).
     { rewrite <- !app_assoc. cbn [app]. reflexivity. }
@@ -272,14 +272,14 @@ Section Floats.
     lex_one_ok_u uw ud (s "CONSTANT") (ip ++ (e :: sgn ++ ed) ++ sfx) rest.
   Proof.
     intros ip e sgn ed sfx rest Hip Hne He Hsg Hed Hne2 Hs Hdl.
-    pose proof (fsuffix_ok sfx Hs) as Hso. assert (Hsa : forallb alnum sfx = true) by (unfold fsfx_ok in Hso; lia).
+    pose proof (fsuffix_ok sfx Hs) as Hso. assert (Hsa : forallb alnum sfx = true) by (unfold fsfx_ok in Hso; apply andb_true_iff in Hso as [Hso' _]; exact Hso').
     assert (Hex : opt_exp [101; 69]%N (e :: sgn ++ ed)) by now constructor.
     destruct (exp_then_tail _ sfx rest Hex Hso Hdl) as (Hst & Hsr & [[Habs _]|[_ Hem]]); [discriminate|].
     assert (Ew : (ip ++ (e :: sgn ++ ed) ++ sfx) ++ rest = ip ++ (e :: sgn ++ ed) ++ sfx ++ rest) by now rewrite <- !app_assoc.
     destruct ip as [|d ip'] eqn:Eip; [congruence|]. rewrite <- Eip in *.
-    assert (Hd0 : ascii_digit d = true) by (rewrite Eip in Hip; cbn [forallb] in Hip; lia).
+    assert (Hd0 : ascii_digit d = true) by (rewrite Eip in Hip; cbn [forallb] in Hip; apply andb_true_iff in Hip as [Hip' _]; exact Hip').
     apply (accept_float_from_match 0%nat ip (e :: sgn ++ ed) sfx rest d ((ip' ++ (e :: sgn ++ ed) ++ sfx) ++ rest));
-      try assumption; try reflexivity; try (unfold ascii_digit in Hd0; lia).
+      try assumption; try (unfold ascii_digit in Hd0; clear - Hd0; lia).
     - now rewrite Eip.
     - rewrite Ew. unfold fexp_match. rewrite (span_app_stop (isd ud) ip _ (digits_isd ud ip Hip) Hst).
       rewrite Eip. cbn [nonnil]. rewrite <- Eip.
@@ -288,3 +288,550 @@ Section Floats.
     - rewrite !forallb_app. rewrite (okc_digits ip Hip), (opt_exp_okc _ _ eE_alnum Hex), (okc_alnums sfx Hsa). reflexivity.
   Qed.
 End Floats.
+
+(* ================================================================== string literals and character constants *)
+From NV Require Import Spec.TruePos Spec.Normalise Spec.LexProps Proofs.LexInv Proofs.LexText.
+
+(* the items of a literal body: a plain character, a simple escape, an octal escape (backslash + octal digits, maximal),
+   a hexadecimal escape (backslash x + one or two hexadecimal digits, as many as the tool reads) *)
+Inductive sitem := SPlain (c : N) | SEsc (c : N) | SOct (o : str) | SHex (h : str).
+Definition sraw (i : sitem) : str :=
+  match i with SPlain c => [c] | SEsc c => [92%N; c] | SOct o => 92%N :: o | SHex h => 92%N :: 120%N :: h end.
+Definition sraws (items : list sitem) : str := flat_map sraw items.
+
+(* c followed by `next` forms no di/trigraph: c is none of ? < % :, or the next character is none of ? % : > *)
+Definition nograph (c : N) (next : str) : bool :=
+  negb (chr_in c [63; 60; 37; 58]%N) || match next with [] => true | d :: _ => negb (chr_in d [63; 37; 58; 62]%N) end.
+Definition simple_escape_char (c : N) : bool := chr_in c ([39; 34; 63; 92]%N ++ s "abfnrtv").
+Definition head_not (p : N -> bool) (next : str) : bool := match next with [] => true | d :: _ => negb (p d) end.
+
+(* q = the delimiter of the literal kind; next = the raw text that follows the item (further items, the closing quote) *)
+Definition item_ok (q : N) (it : sitem) (next : str) : bool :=
+  match it with
+  | SPlain c => negb (chr_in c [q; 92; 10; 9]%N) && nograph c next
+  | SEsc c => simple_escape_char c && nograph c next
+  | SOct o => nonempty o && forallb is_oct o && head_not is_oct next
+  | SHex h => forallb is_hex h && match h with [_] => head_not is_hex next | [_; _] => true | _ => false end
+  end.
+Fixpoint items_ok (q : N) (items : list sitem) (tail : str) : bool :=
+  match items with
+  | [] => true
+  | it :: r => item_ok q it (sraws r ++ tail) && items_ok q r tail
+  end.
+
+Lemma std_digraph_snd a b t : std_digraph a b = Some t -> chr_in b [37; 62; 58]%N = true.
+Proof.
+  unfold std_digraph. destruct a as [|p]; [discriminate|].
+  repeat (destruct p as [p|p|]; try discriminate);
+    (destruct b as [|q]; [discriminate|]; repeat (destruct q as [q|q|]; try discriminate); intros _; reflexivity).
+Qed.
+
+Lemma peek1_nograph c next : nograph c next = true -> peek1 (c :: next) = Some ([c], 1%nat).
+Proof.
+  intros H. unfold peek1.
+  destruct (assoc (firstn 3 (c :: next)) trigraphs) as [v|] eqn:E3.
+  { exfalso. destruct (assoc_trigraph_std _ _ E3) as (a & b & c' & t & Hk & Hs & _).
+    destruct next as [|d [|d' r]]; cbn in Hk; inversion Hk; subst.
+    unfold std_trigraph in Hs. destruct (N.eqb_spec a 63) as [->|]; [|discriminate]. destruct (N.eqb_spec b 63) as [->|]; [|discriminate].
+    unfold nograph in H. cbn in H. discriminate. }
+  destruct (assoc (firstn 2 (c :: next)) digraphs) as [v|] eqn:E2; [|reflexivity].
+  exfalso. destruct (assoc_digraph_std _ _ E2) as (a & b & t & Hk & Hs & _).
+  destruct next as [|d r]; cbn in Hk; inversion Hk; subst.
+  pose proof (std_digraph_head _ _ _ Hs) as H1. pose proof (std_digraph_snd _ _ _ Hs) as H2.
+  unfold nograph in H. cbn [chr_in existsb] in *. lia.
+Qed.
+
+(* ------------------------------------------------------------------ one item = one pop (escapes enabled), no diagnostic *)
+Lemma shift_eq n x : advance n (set_pos (line x) (col x + Z.of_nat n) x) = shift n x.
+Proof. reflexivity. Qed.
+
+Lemma pf_plain_shift us x char size : is_nl char = false -> ends_with [9%N] char = false ->
+  pop_finish us x char size = PopOk char (shift size x).
+Proof. intros H1 H2. unfold pop_finish. rewrite H1, H2. reflexivity. Qed.
+
+Lemma escape_letters_fact : forallb (fun c => is_substr [c] pop_escape_letters) ([39; 34; 63; 92]%N ++ s "abfnrtv") = true.
+Proof. vm_compute. reflexivity. Qed.
+Lemma octal_not_letter : forallb (fun c => negb (is_substr [c] pop_escape_letters) && negb (str_eqb [c] (s "x")) && is_substr [c] octal_digits)
+                                 (s "01234567") = true.
+Proof. vm_compute. reflexivity. Qed.
+
+Lemma pop1_bs_head ue x r : rest x = 92%N :: r ->
+  pop1 false ue x =
+    match peek1 r with
+    | None => pop_finish false x [92%N] 1
+    | Some (temp, tsize) =>
+        if negb (is_nl temp) then
+          if ue then let '(char', size', x') := pop_escape x [92%N] 1 temp tsize in pop_finish false x' char' size'
+          else pop_finish false x [92%N] 1
+        else
+          let x' := set_pos (line x + 1) 1 (advance 2 x) in
+          match peek1 (rest x') with None => PopEOF x' | Some _ => pop_inner 99 false ue x' end
+    end.
+Proof.
+  intros Hr. unfold pop1, pop_loop_bound. rewrite LexText.pop_inner_S, Hr, (peek1_nohead' 92%N r eq_refl). reflexivity.
+Qed.
+
+Lemma pop_item q x it next : item_ok q it next = true -> rest x = sraw it ++ next ->
+  pop1 false true x = PopOk (sraw it) (shift (List.length (sraw it)) x).
+Proof.
+  intros Hok Hr. destruct it as [c|c|o|h]; cbn [sraw app item_ok] in *.
+  - (* plain *)
+    apply andb_true_iff in Hok as [Hc Hg]. cbn [chr_in existsb] in Hc.
+    apply (pop1_plain false true x c next Hr (peek1_nograph c next Hg)). cbn [chr_in existsb]. lia.
+  - (* simple escape *)
+    apply andb_true_iff in Hok as [Hc Hg].
+    assert (Hl : is_substr [c] pop_escape_letters = true).
+    { pose proof escape_letters_fact as F. rewrite forallb_forall in F. apply F. unfold simple_escape_char in Hc. now apply chr_in_In. }
+    assert (Hc9 : (c =? 9)%N = false /\ (c =? 10)%N = false).
+    { pose proof (is_substr1_plain _ _ escape_letters_plain Hl) as P. unfold plainc in P. lia. }
+    rewrite (pop1_bs_head true x _ Hr), (peek1_nograph c next Hg), is_nl_10. replace (c =? 10)%N with false by lia. cbn [negb].
+    unfold pop_escape. rewrite Hl. cbn [app Nat.add].
+    apply pf_plain_shift; [reflexivity|]. unfold ends_with. cbn [List.length Nat.leb Nat.sub skipn str_eqb andb]. lia.
+  - (* octal escape *)
+    apply andb_true_iff in Hok as [Hok Hn]. apply andb_true_iff in Hok as [Hne Ho].
+    destruct o as [|d o']; [discriminate|]. cbn [app] in Hr.
+    assert (Hd : is_oct d = true) by (cbn [forallb] in Ho; lia).
+    assert (Hin : In d (s "01234567")).
+    { unfold is_oct in Hd. apply chr_in_In. cbn [chr_in existsb s List.map list_ascii_of_string N_of_ascii N_of_digits]. lia. }
+    pose proof octal_not_letter as F. rewrite forallb_forall in F. specialize (F d Hin).
+    apply andb_true_iff in F as [F F3]. apply andb_true_iff in F as [F1 F2]. apply negb_true_iff in F1, F2.
+    assert (Hpk : peek1 (d :: o' ++ next) = Some ([d], 1%nat)).
+    { apply peek1_nohead'. unfold is_oct in Hd. cbn [chr_in existsb]. lia. }
+    rewrite (pop1_bs_head true x _ Hr), Hpk, is_nl_10. replace (d =? 10)%N with false by (unfold is_oct in Hd; lia). cbn [negb].
+    unfold pop_escape. rewrite F1, F2, F3. rewrite Hr. cbn [skipn].
+    assert (Hsp : NumRe.span (fun c => chr_in c octal_digits) (d :: o' ++ next) = (d :: o', next)).
+    { change (d :: o' ++ next) with ((d :: o') ++ next). apply span_app_stop.
+      - apply forallb_forall. intros y Hy. rewrite forallb_forall in Ho. specialize (Ho y Hy). unfold is_oct in Ho.
+        change octal_digits with (s "01234567"). cbn [chr_in existsb s List.map list_ascii_of_string N_of_ascii N_of_digits]. lia.
+      - destruct next as [|n0 nr]; [reflexivity|]. cbn [head_not stops] in *. unfold is_oct in Hn.
+        change octal_digits with (s "01234567"). cbn [chr_in existsb s List.map list_ascii_of_string N_of_ascii N_of_digits]. lia. }
+    rewrite Hsp. cbn [app].
+    assert (Hpl : plain (d :: o')).
+    { unfold plain. apply forallb_forall. intros y Hy. rewrite forallb_forall in Ho. specialize (Ho y Hy). unfold is_oct in Ho. unfold plainc. lia. }
+    destruct (plain_bs_text (d :: o') Hpl) as [E1 E2]. rewrite (pf_plain_shift false x _ _ E2 E1). reflexivity.
+  - (* hexadecimal escape *)
+    apply andb_true_iff in Hok as [Hh Hn].
+    assert (Hpk : peek1 (120%N :: h ++ next) = Some ([120%N], 1%nat)) by now apply peek1_nohead'.
+    rewrite (pop1_bs_head true x _ Hr), Hpk. cbn [negb is_nl nl str_eqb N.eqb Pos.eqb andb].
+    unfold pop_escape. replace (is_substr [120%N] pop_escape_letters) with false by reflexivity.
+    replace (str_eqb [120%N] (s "x")) with true by reflexivity. cbv zeta. rewrite Hr. cbn [skipn].
+    assert (Hhexc : forall y, is_hex y = true -> chr_in y hexadecimal_digits = true).
+    { intros y Hy. unfold is_hex, is_dec in Hy. change hexadecimal_digits with (s "0123456789abcdefABCDEF").
+      cbn [chr_in existsb s List.map list_ascii_of_string N_of_ascii N_of_digits]. lia. }
+    assert (Hnhex : forall y, is_hex y = false -> chr_in y hexadecimal_digits = false).
+    { intros y Hy. unfold is_hex, is_dec in Hy. change hexadecimal_digits with (s "0123456789abcdefABCDEF").
+      cbn [chr_in existsb s List.map list_ascii_of_string N_of_ascii N_of_digits]. lia. }
+    assert (Hpl : forall hs, forallb is_hex hs = true -> plain (120%N :: hs)).
+    { intros hs Hs. unfold plain. cbn [forallb]. apply andb_true_iff. split; [reflexivity|].
+      apply forallb_forall. intros y Hy. rewrite forallb_forall in Hs. specialize (Hs y Hy). unfold is_hex, is_dec in Hs. unfold plainc. lia. }
+    destruct h as [|a [|b [|? ?]]]; try discriminate; cbn [forallb] in Hh; cbn [app].
+    + assert (Ha : is_hex a = true) by lia. rewrite (Hhexc a Ha).
+      assert (Hha : hex_after (a :: next) = [a]).
+      { unfold hex_after. rewrite (Hhexc a Ha). destruct next as [|n0 nr]; [reflexivity|]. cbn [head_not] in Hn.
+        apply negb_true_iff in Hn. now rewrite (Hnhex n0 Hn). }
+      rewrite Hha. cbn [app List.length Nat.add].
+      destruct (plain_bs_text [120%N; a] (Hpl [a] ltac:(cbn [forallb]; lia))) as [E1 E2].
+      rewrite (pf_plain_shift false x _ _ E2 E1). reflexivity.
+    + assert (Ha : is_hex a = true) by lia. assert (Hb : is_hex b = true) by lia. rewrite (Hhexc a Ha).
+      assert (Hha : hex_after (a :: b :: next) = [a; b]) by (unfold hex_after; now rewrite (Hhexc a Ha), (Hhexc b Hb)).
+      rewrite Hha. cbn [app List.length Nat.add].
+      destruct (plain_bs_text [120%N; a; b] (Hpl [a; b] ltac:(cbn [forallb]; lia))) as [E1 E2].
+      rewrite (pf_plain_shift false x _ _ E2 E1). reflexivity.
+Qed.
+
+(* ------------------------------------------------------------------ the encoding prefixes *)
+(* "", L, u, U, u8 *)
+Definition c_prefix (pre : str) : Prop := pre = [] \/ pre = [76%N] \/ pre = [117%N] \/ pre = [85%N] \/ pre = [117%N; 56%N].
+
+Lemma shift_add n m x : shift m (shift n x) = shift (n + m) x.
+Proof.
+  unfold shift. cbn [Lexer.rest off line col errs]. f_equal; try lia. apply skipn_skipn'.
+Qed.
+
+Lemma quote_prefix_step q p ps x : quote_prefix q (p :: ps) x =
+  match raw_peek (S (List.length p)) (Lexer.rest x) with
+  | None => None
+  | Some [] => None
+  | Some r => if starts_with p r && ends_with [q] r then Some (popn (List.length p) x []) else quote_prefix q ps x
+  end.
+Proof. reflexivity. Qed.
+
+Lemma popn_prefix pre x t : forallb alnum pre = true -> Lexer.rest x = pre ++ t ->
+  popn (List.length pre) x [] = PopOk pre (shift (List.length pre) x).
+Proof. intros Ha Hr. exact (popn_plain pre x [] t (okc_alnums pre Ha) Hr). Qed.
+
+Ltac qp_false := rewrite quote_prefix_step;
+  match goal with Hr : Lexer.rest _ = _ |- _ => rewrite Hr end;
+  cbn [raw_peek app firstn List.length starts_with N.eqb Pos.eqb andb];
+  try (unfold ends_with; cbn [List.length Nat.leb Nat.sub skipn str_eqb N.eqb Pos.eqb andb]).
+
+Lemma quote_prefix_found q pre x T : (q = 34%N \/ q = 39%N) -> c_prefix pre -> Lexer.rest x = pre ++ q :: T ->
+  quote_prefix q quote_prefixes x = Some (PopOk pre (shift (List.length pre) x)).
+Proof.
+  intros Hq Hpre Hr. change quote_prefixes with [[108%N]; [76%N]; [117%N]; [85%N]; [117%N; 56%N]].
+  destruct Hpre as [->|[->|[->|[->| ->]]]]; destruct Hq as [-> | ->]; cbn [app] in Hr.
+  all: repeat qp_false.
+  all: try (cbn [quote_prefix]; rewrite shift_0; reflexivity).
+  all: f_equal.
+  all: try exact (popn_prefix [76%N] x _ eq_refl Hr).
+  all: try exact (popn_prefix [117%N] x _ eq_refl Hr).
+  all: try exact (popn_prefix [85%N] x _ eq_refl Hr).
+  all: exact (popn_prefix [117%N; 56%N] x _ eq_refl Hr).
+Qed.
+
+(* ------------------------------------------------------------------ the parsers tried before decline on a letter or a quote *)
+Section Literals.
+  Variable uw ud : N -> bool.
+
+  Definition lit_head (c : N) : bool := (ascii_alpha c || (c =? 34)%N || (c =? 39)%N).
+
+  Lemma lit_head_facts c : lit_head c = true ->
+    isd ud c = false /\ (c =? 46)%N = false /\ (c =? 48)%N = false /\ (c =? 92)%N = false /\ (c =? 63)%N = false.
+  Proof. unfold lit_head, isd, ascii_alpha, ascii_digit. intros H. replace (c <? 128)%N with true by lia. lia. Qed.
+
+  Lemma float_none_lit x c t : Lexer.rest x = c :: t -> lit_head c = true -> parse_float_literal uw ud x = PNone.
+  Proof.
+    intros Hr Hc. destruct (lit_head_facts c Hc) as (Hd & H46 & H48 & _).
+    assert (Hst : stops (isd ud) (c :: t) = true) by (cbn [stops]; now rewrite Hd).
+    apply parse_float_none; rewrite Hr.
+    - unfold fexp_match. rewrite (span_stop (isd ud) _ Hst). reflexivity.
+    - apply (ffrac_none uw ud [] (c :: t) eq_refl Hst). cbn [stops]. now rewrite H46.
+    - now apply fhex_none_nonzero.
+  Qed.
+
+  Lemma int_none_lit x c t : Lexer.rest x = c :: t -> lit_head c = true -> parse_integer_literal uw ud x = PNone.
+  Proof.
+    intros Hr Hc. destruct (lit_head_facts c Hc) as (Hd & H46 & H48 & _).
+    unfold parse_integer_literal. rewrite Hr, (int_match_nonzero uw ud c t H48).
+    rewrite (int_const_none ud (c :: t)); [reflexivity|]. cbn [stops]. now rewrite Hd.
+  Qed.
+End Literals.
+
+Lemma quote_prefix_other pre x T : c_prefix pre -> Lexer.rest x = pre ++ 34%N :: T ->
+  quote_prefix 39%N quote_prefixes x = Some (PopOk [] x).
+Proof.
+  intros Hpre Hr. change quote_prefixes with [[108%N]; [76%N]; [117%N]; [85%N]; [117%N; 56%N]].
+  destruct Hpre as [->|[->|[->|[->| ->]]]]; cbn [app] in Hr; repeat qp_false; reflexivity.
+Qed.
+
+Lemma sraw_nonempty it : sraw it <> [].
+Proof. destruct it; discriminate. Qed.
+
+Lemma sraw_not_quote q it next : item_ok q it next = true -> str_eqb (sraw it) [q] = false.
+Proof.
+  destruct it as [c|c|o|h]; cbn [sraw item_ok str_eqb]; intros H.
+  - apply andb_true_iff in H as [H _]. apply negb_true_iff in H. cbn [chr_in existsb] in H. apply orb_false_iff in H as [H _]. now rewrite H.
+  - now rewrite andb_false_r.
+  - destruct o; [discriminate|]. now rewrite andb_false_r.
+  - now rewrite andb_false_r.
+Qed.
+
+(* string_loop over a body of items, up to and including the closing quote: no diagnostic, plain column arithmetic *)
+Lemma string_loop_items : forall items fuel acc x rest,
+  items_ok 34%N items (34%N :: rest) = true -> Lexer.rest x = sraws items ++ 34%N :: rest ->
+  (List.length (sraws items) < fuel)%nat ->
+  string_loop fuel acc x = SDone (acc ++ sraws items ++ [34%N]) true (shift (S (List.length (sraws items))) x).
+Proof.
+  induction items as [|it items IH]; intros fuel acc x rest Hok Hr Hf; (destruct fuel as [|fuel]; [cbn in Hf; lia|]);
+    rewrite string_loop_S.
+  - cbn [sraws flat_map app List.length] in *. rewrite Hr, (peek1_nohead' 34%N rest eq_refl).
+    rewrite (pop1_plain false true x 34%N rest Hr (peek1_nohead' 34%N rest eq_refl) eq_refl). reflexivity.
+  - cbn [sraws flat_map items_ok] in *. fold (sraws items) in *. apply andb_true_iff in Hok as [Hit Hok].
+    rewrite <- app_assoc in Hr.
+    destruct (peek1 (Lexer.rest x)) as [pk|] eqn:Ep.
+    2: { apply peek1_none in Ep. rewrite Ep in Hr. destruct (sraw it) eqn:E; [now apply sraw_nonempty in E|discriminate]. }
+    rewrite (pop_item 34%N x it _ Hit Hr), (sraw_not_quote 34%N it _ Hit).
+    rewrite (IH fuel (acc ++ sraw it) (shift (List.length (sraw it)) x) rest Hok).
+    + rewrite shift_add, <- !app_assoc. rewrite app_length. f_equal. f_equal. lia.
+    + rewrite rest_shift, Hr, skipn_app, skipn_all, Nat.sub_diag. reflexivity.
+    + rewrite app_length in Hf. assert (1 <= List.length (sraw it))%nat by (destruct it; cbn; lia). lia.
+Qed.
+
+Section Strings.
+  Variable uw ud : N -> bool.
+
+  Lemma try_parsers_string x t x' : parse_float_literal uw ud x = PNone -> parse_integer_literal uw ud x = PNone ->
+    parse_char_literal x = PNone -> parse_string_literal x = PTok t x' -> try_parsers uw ud parsers x = PTok t x'.
+  Proof.
+    intros H1 H2 H3 H4.
+    assert (E1 : run_parser uw ud (s "parse_float_literal") x = parse_float_literal uw ud x) by reflexivity.
+    assert (E2 : run_parser uw ud (s "parse_integer_literal") x = parse_integer_literal uw ud x) by reflexivity.
+    assert (E3 : run_parser uw ud (s "parse_char_literal") x = parse_char_literal x) by reflexivity.
+    assert (E4 : run_parser uw ud (s "parse_string_literal") x = parse_string_literal x) by reflexivity.
+    unfold parsers. cbn [try_parsers]. rewrite E1, H1, E2, H2, E3, H3, E4, H4. reflexivity.
+  Qed.
+
+  Lemma c_prefix_alnum pre : c_prefix pre -> forallb alnum pre = true.
+  Proof. intros [->|[->|[->|[->| ->]]]]; reflexivity. Qed.
+
+  Lemma lit_first pre q T : c_prefix pre -> (q = 34%N \/ q = 39%N) -> exists c t, pre ++ q :: T = c :: t /\ lit_head c = true.
+  Proof. intros [->|[->|[->|[->| ->]]]] [-> | ->]; cbn [app]; eexists; eexists; (split; [reflexivity|reflexivity]). Qed.
+
+  (* ------------------------------------------------------------------ (3) string literals of any length *)
+  Theorem accept_string : forall pre items rest,
+    c_prefix pre -> items_ok 34%N items (34%N :: rest) = true ->
+    lex_one_ok_u uw ud (s "STRING") (pre ++ 34%N :: sraws items ++ [34%N]) rest.
+  Proof.
+    intros pre items rest Hpre Hok.
+    set (w := pre ++ 34%N :: sraws items ++ [34%N]).
+    assert (Ew : w ++ rest = pre ++ 34%N :: sraws items ++ 34%N :: rest).
+    { unfold w. rewrite <- app_assoc. cbn [app]. now rewrite <- app_assoc. }
+    destruct (lit_first pre 34%N (sraws items ++ 34%N :: rest) Hpre (or_introl eq_refl)) as (c & t & Hct & Hc).
+    rewrite <- Ew in Hct. destruct (lit_head_facts ud c Hc) as (_ & _ & _ & H92 & H63).
+    set (x := init (w ++ rest)).
+    assert (Hr : Lexer.rest x = pre ++ 34%N :: sraws items ++ 34%N :: rest) by exact Ew.
+    assert (Hp : parse_string_literal x = PTok (mktok (s "STRING") 1 1 (Some w)) (shift (List.length w) x)).
+    { unfold parse_string_literal.
+      destruct (peek1 (Lexer.rest x)) as [pk|] eqn:Ep; [|apply peek1_none in Ep; change (Lexer.rest x) with (w ++ rest) in Ep; congruence].
+      rewrite (quote_prefix_found 34%N pre x _ (or_introl eq_refl) Hpre Hr).
+      assert (Hr1 : Lexer.rest (shift (List.length pre) x) = 34%N :: sraws items ++ 34%N :: rest).
+      { rewrite rest_shift, Hr, skipn_app, skipn_all, Nat.sub_diag. reflexivity. }
+      rewrite Hr1. cbn [first_is N.eqb Pos.eqb negb].
+      rewrite (pop1_plain false false _ 34%N _ Hr1 (peek1_nohead' 34%N _ eq_refl) eq_refl).
+      rewrite shift_add.
+      assert (Hr2 : Lexer.rest (shift (List.length pre + 1) x) = sraws items ++ 34%N :: rest).
+      { rewrite rest_shift, Hr. replace (List.length pre + 1)%nat with (List.length (pre ++ [34%N])) by (rewrite app_length; reflexivity).
+        change (pre ++ 34%N :: sraws items ++ 34%N :: rest) with (pre ++ [34%N] ++ sraws items ++ 34%N :: rest).
+        rewrite app_assoc, skipn_app, skipn_all, Nat.sub_diag. reflexivity. }
+      rewrite (string_loop_items items _ (pre ++ [34%N]) _ rest Hok Hr2); [|rewrite Hr2, app_length; lia].
+      rewrite shift_add. cbv zeta. unfold w. f_equal.
+      - f_equal. f_equal. rewrite <- app_assoc. reflexivity.
+      - f_equal. rewrite !app_length. cbn [List.length]. rewrite app_length. cbn [List.length]. lia. }
+    exists (shift (List.length w) x). split; [|reflexivity].
+    assert (Hrx : Lexer.rest x = c :: t) by exact Hct.
+    assert (Hcn : parse_char_literal x = PNone).
+    { unfold parse_char_literal. rewrite (quote_prefix_other pre x _ Hpre Hr), Hr.
+      replace (first_is 39%N (pre ++ 34%N :: sraws items ++ 34%N :: rest)) with false; [reflexivity|].
+      destruct Hpre as [->|[->|[->|[->| ->]]]]; reflexivity. }
+    rewrite (step_tok uw ud w rest c t _ _ Hct H92 H63
+               (try_parsers_string x _ _ (float_none_lit uw ud x c t Hrx Hc) (int_none_lit uw ud x c t Hrx Hc) Hcn Hp)).
+    reflexivity.
+  Qed.
+End Strings.
+
+Lemma sraw_not_nl q it next : item_ok q it next = true -> is_nl (sraw it) = false.
+Proof.
+  unfold is_nl, nl. destruct it as [c|c|o|h]; cbn [sraw item_ok str_eqb]; intros H; try reflexivity.
+  apply andb_true_iff in H as [H _]. apply negb_true_iff in H. cbn [chr_in existsb] in H.
+  apply orb_false_iff in H as [_ H]. apply orb_false_iff in H as [_ H]. apply orb_false_iff in H as [H _]. now rewrite H.
+Qed.
+
+Section Chars.
+  Variable uw ud : N -> bool.
+
+  Lemma try_parsers_char x t x' : parse_float_literal uw ud x = PNone -> parse_integer_literal uw ud x = PNone ->
+    parse_char_literal x = PTok t x' -> try_parsers uw ud parsers x = PTok t x'.
+  Proof.
+    intros H1 H2 H3.
+    assert (E1 : run_parser uw ud (s "parse_float_literal") x = parse_float_literal uw ud x) by reflexivity.
+    assert (E2 : run_parser uw ud (s "parse_integer_literal") x = parse_integer_literal uw ud x) by reflexivity.
+    assert (E3 : run_parser uw ud (s "parse_char_literal") x = parse_char_literal x) by reflexivity.
+    unfold parsers. cbn [try_parsers]. rewrite E1, H1, E2, H2, E3, H3. reflexivity.
+  Qed.
+
+  (* ------------------------------------------------------------------ (3) character constants: exactly one c-char *)
+  Theorem accept_char : forall pre it rest,
+    c_prefix pre -> item_ok 39%N it (39%N :: rest) = true ->
+    lex_one_ok_u uw ud (s "CHAR_CONST") (pre ++ 39%N :: sraw it ++ [39%N]) rest.
+  Proof.
+    intros pre it rest Hpre Hok.
+    set (w := pre ++ 39%N :: sraw it ++ [39%N]).
+    assert (Ew : w ++ rest = pre ++ 39%N :: sraw it ++ 39%N :: rest).
+    { unfold w. rewrite <- app_assoc. cbn [app]. now rewrite <- app_assoc. }
+    destruct (lit_first pre 39%N (sraw it ++ 39%N :: rest) Hpre (or_intror eq_refl)) as (c & t & Hct & Hc).
+    rewrite <- Ew in Hct. destruct (lit_head_facts ud c Hc) as (_ & _ & _ & H92 & H63).
+    set (x := init (w ++ rest)).
+    assert (Hr : Lexer.rest x = pre ++ 39%N :: sraw it ++ 39%N :: rest) by exact Ew.
+    assert (Hp : parse_char_literal x = PTok (mktok (s "CHAR_CONST") 1 1 (Some w)) (shift (List.length w) x)).
+    { unfold parse_char_literal.
+      rewrite (quote_prefix_found 39%N pre x _ (or_intror eq_refl) Hpre Hr).
+      assert (Hr1 : Lexer.rest (shift (List.length pre) x) = 39%N :: sraw it ++ 39%N :: rest).
+      { rewrite rest_shift, Hr, skipn_app, skipn_all, Nat.sub_diag. reflexivity. }
+      rewrite Hr1. cbn [first_is N.eqb Pos.eqb negb].
+      rewrite (pop1_plain false false _ 39%N _ Hr1 (peek1_nohead' 39%N _ eq_refl) eq_refl).
+      rewrite shift_add.
+      assert (Hr2 : Lexer.rest (shift (List.length pre + 1) x) = sraw it ++ 39%N :: rest).
+      { rewrite rest_shift, Hr. replace (List.length pre + 1)%nat with (List.length (pre ++ [39%N])) by (rewrite app_length; reflexivity).
+        change (pre ++ 39%N :: sraw it ++ 39%N :: rest) with (pre ++ [39%N] ++ sraw it ++ 39%N :: rest).
+        rewrite app_assoc, skipn_app, skipn_all, Nat.sub_diag. reflexivity. }
+      unfold char_loop_bound. rewrite char_loop_S.
+      rewrite (pop_item 39%N _ it _ Hok Hr2), (sraw_not_nl 39%N it _ Hok), (sraw_not_quote 39%N it _ Hok).
+      rewrite shift_add, char_loop_S.
+      assert (Hr3 : Lexer.rest (shift (List.length pre + 1 + List.length (sraw it)) x) = 39%N :: rest).
+      { rewrite <- shift_add, rest_shift, Hr2, skipn_app, skipn_all, Nat.sub_diag. reflexivity. }
+      rewrite (pop1_plain false true _ 39%N _ Hr3 (peek1_nohead' 39%N _ eq_refl) eq_refl).
+      replace (is_nl [39%N]) with false by reflexivity. replace (str_eqb [39%N] [39%N]) with true by reflexivity.
+      rewrite shift_add. cbv zeta. cbn [Nat.eqb Nat.ltb Nat.leb andb].
+      unfold w. f_equal.
+      - f_equal. f_equal. rewrite <- !app_assoc. reflexivity.
+      - f_equal. rewrite !app_length. cbn [List.length]. rewrite app_length. cbn [List.length]. lia. }
+    exists (shift (List.length w) x). split; [|reflexivity].
+    assert (Hrx : Lexer.rest x = c :: t) by exact Hct.
+    rewrite (step_tok uw ud w rest c t _ _ Hct H92 H63
+               (try_parsers_char x _ _ (float_none_lit uw ud x c t Hrx Hc) (int_none_lit uw ud x c t Hrx Hc) Hp)).
+    reflexivity.
+  Qed.
+End Chars.
+
+(* ================================================================== (2) hexadecimal floating constants *)
+Lemma lstrip_run set a c b : forallb (fun y => chr_in y set) a = true -> chr_in c set = false -> lstrip set (a ++ c :: b) = c :: b.
+Proof.
+  intros Ha Hc. induction a as [|y a IH]; cbn [app lstrip]; [now rewrite Hc|].
+  cbn [forallb] in Ha. apply andb_true_iff in Ha as [Hy Ha]. rewrite Hy. now apply IH.
+Qed.
+
+Lemma strip_hex_const set xc body : chr_in 48%N set = true -> chr_in xc set = false ->
+  forallb (fun y => chr_in y set) body = true -> strip set (48%N :: xc :: body) = [xc].
+Proof.
+  intros H0 Hx Hb. unfold strip. cbn [lstrip]. rewrite H0. cbn [lstrip]. rewrite Hx. cbn [rev].
+  rewrite (lstrip_run set (rev body) xc []); [reflexivity| |assumption].
+  apply forallb_forall. intros y Hy. apply in_rev in Hy. rewrite forallb_forall in Hb. now apply Hb.
+Qed.
+
+(* the remainder of a suffix after its leading run of hexadecimal letters (the exponent group of the hexadecimal pattern takes
+   HEXADECIMAL digits, so 0x1p3f reads `f` as an exponent digit) *)
+Definition hexfloat_sfx_rem (sfx : str) : str := snd (span is_hex sfx).
+Definition hexfloat_sfx_bad (sfx : str) : bool := match sfx with c :: _ :: _ => chr_in c (s "fFdD") | _ => false end.
+
+(* the recorded finding C11-hexfloat-hex-suffix on the suffix alone: outside it the remainder is again a suffix of the table
+   (the condition the theorem needs is weaker: 0x1p3dl, 0x1p3df are accepted by the tool although the shape flags them) *)
+Lemma hexfloat_sfx_guard : forallb (fun sfx => hexfloat_sfx_bad sfx || str_in (hexfloat_sfx_rem sfx) float_suffixes) float_suffixes = true.
+Proof. vm_compute. reflexivity. Qed.
+Lemma hexfloat_sfx_guard_ok sfx : str_in sfx float_suffixes = true -> hexfloat_sfx_bad sfx = false ->
+  str_in (hexfloat_sfx_rem sfx) float_suffixes = true.
+Proof.
+  intros Hs Hb. apply str_in_In in Hs. pose proof hexfloat_sfx_guard as G. rewrite forallb_forall in G. specialize (G _ Hs).
+  rewrite Hb in G. exact G.
+Qed.
+
+Section HexFloats.
+  Variable uw ud : N -> bool.
+
+  Definition is_pP (c : N) : bool := ((c =? 112) || (c =? 80))%N.
+
+  Lemma exp_match_run E (digit : N -> bool) q e sgn d0 dr T :
+    in_set E e = true -> sign_ok sgn = true -> ascii_digit d0 = true -> forallb digit (d0 :: dr) = true ->
+    (forall c, ascii_digit c = true \/ in_set [43; 45]%N c = true -> in_set E c = false) ->
+    stops digit T = true ->
+    exp_match E digit q (e :: sgn ++ (d0 :: dr) ++ T) = Some (e :: sgn ++ d0 :: dr, T).
+  Proof.
+    intros He Hsg Hd0 Hdd HE Hst. unfold exp_match. rewrite He.
+    assert (Esp : span (in_set E) (e :: sgn ++ (d0 :: dr) ++ T) = ([e], sgn ++ (d0 :: dr) ++ T)).
+    { cbn [span]. rewrite He. rewrite span_stop; [reflexivity|].
+      destruct sgn as [|c [|? ?]]; try discriminate; cbn [app stops]; rewrite HE; auto. }
+    rewrite Esp. destruct sgn as [|c [|? ?]]; try discriminate; cbn [app sign_ok] in *.
+    - replace (in_set [43; 45]%N d0) with false by (unfold ascii_digit in Hd0; cbn [in_set existsb]; lia).
+      change (d0 :: dr ++ T) with ((d0 :: dr) ++ T). rewrite (span_app_stop digit (d0 :: dr) T Hdd Hst). reflexivity.
+    - rewrite Hsg. change (d0 :: dr ++ T) with ((d0 :: dr) ++ T). rewrite (span_app_stop digit (d0 :: dr) T Hdd Hst). reflexivity.
+  Qed.
+
+  Lemma pP_not_digit_sign c : ascii_digit c = true \/ in_set [43; 45]%N c = true -> in_set [112; 80]%N c = false.
+  Proof. unfold ascii_digit. cbn [in_set existsb]. lia. Qed.
+
+  Lemma hexs_ishex hs : forallb is_hex hs = true -> forallb (ishex ud) hs = true.
+  Proof. intros H. apply forallb_forall. intros y Hy. rewrite forallb_forall in H. now apply hex_ishex, H. Qed.
+
+  (* 0[xX] hex-digits [. hex-digits] [pP] [sign] digits suffix: integer part and (when there is a dot) fraction non-empty -
+     this excludes exactly the finding C11-hexfloat-empty-part; the suffix condition is implied by the negation of the
+     finding C11-hexfloat-hex-suffix (hexfloat_sfx_guard_ok) *)
+  Theorem accept_hexfloat_partial : forall xc hi frac p sgn d0 ed sfx rest,
+    is_xX xc = true -> forallb is_hex hi = true -> hi <> [] ->
+    (frac = [] \/ exists fp, frac = 46%N :: fp /\ forallb is_hex fp = true /\ fp <> []) ->
+    is_pP p = true -> sign_ok sgn = true -> forallb ascii_digit (d0 :: ed) = true ->
+    str_in sfx float_suffixes = true -> str_in (hexfloat_sfx_rem sfx) float_suffixes = true -> delim rest = true ->
+    lex_one_ok_u uw ud (s "CONSTANT") ((48%N :: xc :: hi ++ frac) ++ (p :: sgn ++ d0 :: ed) ++ sfx) rest.
+  Proof.
+    intros xc hi frac p sgn d0 ed sfx rest Hx Hhi Hne Hfrac Hp Hsg Hed Hs Hrem Hdl.
+    pose proof (fsuffix_ok sfx Hs) as Hso. assert (Hsa : forallb alnum sfx = true) by (unfold fsfx_ok in Hso; apply andb_true_iff in Hso as [Hso' _]; exact Hso').
+    unfold hexfloat_sfx_rem in Hrem. destruct (span is_hex sfx) as [hx rem] eqn:Esp. cbn [snd] in Hrem.
+    destruct (span_spec _ _ _ _ Esp) as (Esfx & Hhx & Hstrem).
+    pose proof (fsuffix_ok rem Hrem) as Hsorem. assert (Hra : forallb alnum rem = true) by (unfold fsfx_ok in Hsorem; apply andb_true_iff in Hsorem as [Hso' _]; exact Hso').
+    assert (Hd0 : ascii_digit d0 = true) by (cbn [forallb] in Hed; apply andb_true_iff in Hed as [Hed' _]; exact Hed').
+    clear Hso Hsorem. remember float_suffixes as FS eqn:EFS.
+    set (const := 48%N :: xc :: hi ++ frac). set (expo := p :: sgn ++ (d0 :: ed) ++ hx).
+    assert (Eww : const ++ (p :: sgn ++ d0 :: ed) ++ sfx = const ++ expo ++ rem).
+    { unfold const, expo. rewrite Esfx. cbn [app]. rewrite <- !app_assoc. cbn [app]. rewrite <- ?app_assoc. reflexivity. }
+    rewrite Eww.
+    (* the tail after the exponent run *)
+    assert (Hst : stops (ishex ud) (rem ++ rest) = true).
+    { destruct rem as [|r0 rem']; cbn [app].
+      - destruct rest as [|c r]; [reflexivity|]. cbn [delim stops] in *. unfold ishex. rewrite (delimc_isd ud c Hdl).
+        unfold delimc, alnum, ascii_alpha, ascii_digit in Hdl. lia.
+      - cbn [stops] in *. cbn [forallb] in Hra. unfold ishex, isd. unfold is_hex, is_dec in Hstrem. unfold alnum, ascii_alpha, ascii_digit in Hra.
+        replace (r0 <? 128)%N with true by lia. unfold ascii_digit. lia. }
+    assert (Hrun : forallb (ishex ud) ((d0 :: ed) ++ hx) = true).
+    { rewrite forallb_app, (hexs_ishex hx Hhx), andb_true_r. apply forallb_forall. intros y Hy. rewrite forallb_forall in Hed.
+      unfold ishex. now rewrite (digit_isd ud y (Hed y Hy)). }
+    assert (Hexp : exp_match [112; 80]%N (ishex ud) true (expo ++ rem ++ rest) = Some (expo, rem ++ rest)).
+    { assert (Eq : expo ++ rem ++ rest = p :: sgn ++ (d0 :: ed ++ hx) ++ rem ++ rest).
+      { unfold expo. cbn [app]. rewrite <- !app_assoc. cbn [app]. rewrite <- ?app_assoc. reflexivity. }
+      rewrite Eq, (exp_match_run [112; 80]%N (ishex ud) true p sgn d0 (ed ++ hx) (rem ++ rest)); try assumption.
+      - reflexivity.
+      - unfold is_pP in Hp. cbn [in_set existsb]. clear - Hp. lia.
+      - apply pP_not_digit_sign. }
+    assert (Hsr : suffix_run uw ud (rem ++ rest) = rem) by now apply suffix_run_ok.
+    assert (Hp' : p = 112%N \/ p = 80%N) by (clear - Hp; unfold is_pP in Hp; lia).
+    assert (Hfh : fhex_match uw ud (const ++ expo ++ rem ++ rest) = Some (const, expo, rem)).
+    { unfold const. cbn [app]. unfold fhex_match. lazy beta iota.
+      assert (E1 : span (in_set [120; 88]%N) (xc :: (hi ++ frac) ++ expo ++ rem ++ rest) = ([xc], (hi ++ frac) ++ expo ++ rem ++ rest)).
+      { change (xc :: (hi ++ frac) ++ expo ++ rem ++ rest) with ([xc] ++ ((hi ++ frac) ++ expo ++ rem ++ rest)).
+        apply span_app_stop; [clear - Hx; unfold is_xX in Hx; cbn [forallb in_set existsb]; lia|].
+        destruct hi as [|h hi']; [congruence|]. cbn [app stops]. cbn [forallb] in Hhi. apply andb_true_iff in Hhi as [Hh _].
+        now rewrite (hex_not_x h Hh). }
+      rewrite E1. cbn [nonnil]. rewrite <- app_assoc.
+      assert (En : nonnil hi = true) by (destruct hi; [congruence|reflexivity]).
+      destruct Hfrac as [->|(fp & -> & Hfp & Hfne)].
+      - cbn [app]. rewrite (span_app_stop (ishex ud) hi (expo ++ rem ++ rest) (hexs_ishex hi Hhi)).
+        2: { unfold expo. cbn [app stops]. unfold ishex, isd, ascii_digit. destruct Hp' as [-> | ->]; reflexivity. }
+        rewrite En. rewrite app_nil_r.
+        unfold expo at 1. cbn [app]. destruct Hp' as [-> | ->]; lazy beta iota; fold expo; rewrite Hexp, Hsr; reflexivity.
+      - cbn [app]. rewrite (span_app_stop (ishex ud) hi (46%N :: fp ++ expo ++ rem ++ rest) (hexs_ishex hi Hhi) eq_refl).
+        rewrite En. lazy beta iota.
+        rewrite (span_app_stop (ishex ud) fp (expo ++ rem ++ rest) (hexs_ishex fp Hfp)).
+        2: { unfold expo. cbn [app stops]. unfold ishex, isd, ascii_digit. destruct Hp' as [-> | ->]; reflexivity. }
+        assert (Enf : nonnil fp = true) by (destruct fp; [congruence|reflexivity]). rewrite Enf.
+        rewrite Hexp, Hsr. rewrite <- ?app_assoc. reflexivity. }
+    assert (Hxa : alnum xc = true) by (clear - Hx; unfold is_xX in Hx; unfold alnum, ascii_digit, ascii_alpha; lia).
+    subst FS.
+    apply (accept_float_from_match uw ud 2%nat const expo rem rest 48%N (xc :: (hi ++ frac) ++ expo ++ rem ++ rest)); try assumption; try reflexivity.
+    - unfold const. cbn [app]. now rewrite <- !app_assoc.
+    - rewrite <- !app_assoc in *.
+      assert (Efe : fexp_match uw ud (const ++ expo ++ rem ++ rest) = None).
+      { unfold const. change ((48%N :: xc :: hi ++ frac) ++ expo ++ rem ++ rest) with ([48%N] ++ (xc :: (hi ++ frac) ++ expo ++ rem ++ rest)).
+        apply fexp_none; [reflexivity| |]; clear - Hx; unfold is_xX in Hx; cbn [stops in_set existsb]; unfold isd, ascii_digit; [|lia].
+        replace (xc <? 128)%N with true by lia. lia. }
+      assert (Eff : ffrac_match uw ud (const ++ expo ++ rem ++ rest) = None).
+      { unfold const. change ((48%N :: xc :: hi ++ frac) ++ expo ++ rem ++ rest) with ([48%N] ++ (xc :: (hi ++ frac) ++ expo ++ rem ++ rest)).
+        apply ffrac_none; [reflexivity| |]; clear - Hx; unfold is_xX in Hx; cbn [stops]; unfold isd, ascii_digit; [|lia].
+        replace (xc <? 128)%N with true by lia. lia. }
+      rewrite Efe, Eff, Hfh. reflexivity.
+    - cbn [Nat.eqb]. unfold expo. cbn [nonempty andb].
+      assert (Hok : exp_ok_in ud [112; 80]%N (p :: sgn ++ (d0 :: ed) ++ hx) = true).
+      { unfold exp_ok_in. replace (in_set [112; 80]%N p) with true by (clear - Hp; unfold is_pP in Hp; cbn [in_set existsb]; lia).
+        pose proof (digit_isd ud d0 Hd0) as Hi.
+        destruct sgn as [|c [|? ?]]; try discriminate; cbn [app sign_ok] in *.
+        - replace (in_set [45; 43]%N d0) with false by (clear - Hd0; unfold ascii_digit in Hd0; cbn [in_set existsb]; lia). now rewrite Hi.
+        - replace (in_set [45; 43]%N c) with true by (clear - Hsg; cbn [in_set existsb] in *; lia). now rewrite Hi. }
+      now rewrite Hok.
+    - unfold expo. cbn [nonempty negb]. now rewrite !andb_false_r.
+    - unfold const. rewrite (strip_hex_const _ xc (hi ++ frac)); [clear - Hx; unfold is_xX in Hx; destruct (N.eqb_spec xc 120) as [->|]; [reflexivity|]; replace xc with 88%N by lia; reflexivity|reflexivity|clear - Hx; unfold is_xX in Hx; destruct (N.eqb_spec xc 120) as [->|]; [reflexivity|]; replace xc with 88%N by lia; reflexivity|].
+      apply forallb_forall. intros y Hy. apply in_app_or in Hy as [Hy|Hy].
+      + rewrite forallb_forall in Hhi. specialize (Hhi y Hy). clear - Hhi. unfold is_hex, is_dec in Hhi.
+        change (hexadecimal_digits ++ s ".") with (s "0123456789abcdefABCDEF."). cbn [chr_in existsb s List.map list_ascii_of_string N_of_ascii N_of_digits]. lia.
+      + destruct Hfrac as [->|(fp & -> & Hfp & _)]; [destruct Hy|]. destruct Hy as [<-|Hy]; [reflexivity|].
+        rewrite forallb_forall in Hfp. specialize (Hfp y Hy). clear - Hfp. unfold is_hex, is_dec in Hfp.
+        change (hexadecimal_digits ++ s ".") with (s "0123456789abcdefABCDEF."). cbn [chr_in existsb s List.map list_ascii_of_string N_of_ascii N_of_digits]. lia.
+    - (* all characters plain *)
+      unfold const, expo. rewrite !forallb_app. cbn [forallb]. rewrite !forallb_app.
+      assert (H1 : forallb okc hi = true) by (apply okc_alnums, forallb_forall; intros y Hy; rewrite forallb_forall in Hhi; now apply hex_alnum, Hhi).
+      assert (H2 : forallb okc frac = true).
+      { destruct Hfrac as [->|(fp & -> & Hfp & _)]; [reflexivity|]. cbn [forallb]. apply andb_true_iff. split; [reflexivity|].
+        apply okc_alnums, forallb_forall. intros y Hy. rewrite forallb_forall in Hfp. now apply hex_alnum, Hfp. }
+      assert (H3 : forallb okc sgn = true).
+      { destruct sgn as [|c [|? ?]]; try discriminate; [reflexivity|]. cbn [sign_ok in_set existsb forallb] in Hsg |- *. clear - Hsg. unfold okc. cbn [chr_in existsb]. lia. }
+      assert (H4 : forallb okc (d0 :: ed) = true) by now apply okc_digits.
+      assert (H5 : forallb okc hx = true) by (apply okc_alnums, forallb_forall; intros y Hy; rewrite forallb_forall in Hhx; now apply hex_alnum, Hhx).
+      assert (H6 : okc p = true) by (apply alnum_okc; clear - Hp; unfold is_pP in Hp; unfold alnum, ascii_alpha, ascii_digit; lia).
+      cbn [forallb] in H4. rewrite (alnum_okc xc Hxa), H1, H2, H3, H4, H5, H6, (okc_alnums rem Hra). reflexivity.
+  Qed.
+End HexFloats.
